@@ -80,6 +80,7 @@ type fakeAvahi struct {
 	stream      bool // a browser emits results continuously until it is freed (stress phase)
 	inFlight    bool // ServiceBrowserFree delivers one result that was dispatched just before
 	emitted     int
+	failNext    string // "api" | "browser": the next such call fails although the daemon is there (once)
 }
 
 // the daemon forgets the browser (new session, shutdown, daemon gone): its dispatcher ends
@@ -127,6 +128,10 @@ func (s *fakeAvahi) Shutdown() {
 func (s *fakeAvahi) GetAPIVersion() (int32, error) {
 	s.mu.Lock()
 	defer s.mu.Unlock()
+	if s.failNext == "api" {
+		s.failNext = ""
+		return 0, errors.New("daemon call failed")
+	}
 	if !s.up || !s.live {
 		return 0, errors.New("not connected")
 	}
@@ -136,6 +141,10 @@ func (s *fakeAvahi) ServiceBrowserNew(addChan, removeChan chan avahi.Service, if
 	s.mu.Lock()
 	defer s.mu.Unlock()
 	s.calls++
+	if s.failNext == "browser" {
+		s.failNext = ""
+		return nil, errors.New("daemon call failed")
+	}
 	if !s.up || !s.live {
 		return nil, errors.New("not connected")
 	}
@@ -361,7 +370,12 @@ func runAvahiScenario(seed int64, maxEv int) *avahiScenario {
 		case k < 14:
 			if loopAlive && ticks < 3 {
 				ticks++
+				flaky := rnd.Intn(4) == 0
 				srv.mu.Lock()
+				if flaky {
+					// this attempt gets as far as a successful Setup, then a daemon call fails
+					srv.failNext = []string{"api", "browser"}[rnd.Intn(2)]
+				}
 				before := srv.setups
 				callsBefore := srv.calls
 				srv.mu.Unlock()
@@ -393,7 +407,14 @@ func runAvahiScenario(seed int64, maxEv int) *avahiScenario {
 					running = true
 					shut = false
 				}
-				rec("tick")
+				srv.mu.Lock()
+				srv.failNext = ""
+				srv.mu.Unlock()
+				if flaky {
+					rec("tickflaky")
+				} else {
+					rec("tick")
+				}
 			}
 		case k < 17:
 			if running && !shut {
@@ -446,7 +467,15 @@ func runAvahiScenario(seed int64, maxEv int) *avahiScenario {
 		}
 		rec("tick")
 	}
-	p.Shutdown()
+	// the application shuts the provider down at the end: that has to come back too
+	done := make(chan struct{})
+	go func() { p.Shutdown(); close(done) }()
+	select {
+	case <-done:
+	case <-time.After(3 * time.Second):
+		sc.events = append(sc.events, "shutdown")
+		sc.outs = append(sc.outs, "HANG in Shutdown")
+	}
 	return sc
 }
 
